@@ -1,15 +1,21 @@
 use vkit::engine::{drive_main, Args};
 
+pub mod c11;
 pub mod c21;
+pub mod dbg;
 pub mod c31;
+pub mod c32;
 
 /// same as erg_common::spawn::STACK_SIZE of the product build (8 MB unless large_thread)
 pub const STACK_SIZE: usize = 8 * 1024 * 1024;
 
 pub fn dispatch(id: &str, args: &Args) -> i32 {
     match id {
+        "C11" => drive_main(&c11::C11, args),
         "C21" => drive_main(&c21::C21, args),
         "C31" => drive_main(&c31::C31, args),
+        "C32" => drive_main(&c32::C32, args),
+        "dbg" => crate::props::dbg::main(),
         _ => {
             eprintln!("unknown property {id}");
             2
